@@ -1226,7 +1226,10 @@ def nb_dot(a: Union[np.ndarray, pd.DataFrame, pl.DataFrame], b: ArrayType1D):
     if isinstance(a, np.ndarray):
         arr_list = a.T
     else:
-        arr_list = NumbaList([np.asarray(a[col]) for col in a.columns])
+        columns = [np.asarray(a[col]) for col in a.columns]
+        # the compiled loop takes a homogeneous list: bring the columns to a common dtype
+        common_type = np.result_type(*columns) if columns else np.float64
+        arr_list = NumbaList([col.astype(common_type, copy=False) for col in columns])
 
     kinds = [a.dtype.kind for a in arr_list] + [np.asarray(b).dtype.kind]
     return_type = np.float64 if "f" in kinds else np.int64
